@@ -42,7 +42,7 @@ Section PureEquiv.
 
   Lemma next_aligned_equiv n a w :
     in_range n -> in_range a ->
-    run helpers__next_aligned_ast [VInt n; VInt a] w = (lift (next_aligned cfg n a), w).
+    run helpers__next_aligned_ast [VInt n; VInt a] w = (lift (next_aligned n a), w).
   Proof.
     unfold in_range, run, next_aligned, add_u, lift. intros Hn Ha. ev.
     assert (W64 = 18446744073709551616) by reflexivity.
